@@ -19,7 +19,7 @@ NONVACUITY = [  # (cfg, invariant that must be violated)
     ("MC_asfound.cfg", "Balanced"), ("MC_asfound_twice.cfg", "ExactlyOnce"), ("MC_stopfwd.cfg", "ReverseOrder"),
     ("MC_cleanup_nostop.cfg", "CleanupOnlyAfterStop"), ("MC_start_nogate.cfg", "StartOnlyAfterInit"),
     ("MC_opt_abort.cfg", "OptionalFailureIsolated"), ("MC_skip_last.cfg", "HooksCalled"), ("MC_init_rev.cfg", "Nested"),
-    ("MC_stop_nogate.cfg", "StopOnlyIfStarted"),
+    ("MC_stop_nogate.cfg", "StopOnlyIfStarted"), ("MC_dtor_kids_first.cfg", "Balanced"), ("MC_stale_disabled.cfg", "Balanced"),
 ]
 
 
@@ -96,8 +96,16 @@ def account_replays(ctx, res):
             ctx.replays_ok += n
 
 
-def close(calls):
-    return list(calls) + ["cleanup", "destroy"]          # DESIGN section 5 item 12: cleanup() before the destruction
+def close(calls, i):
+    """-> (calls, wrap).  A sequence that ends with destroy (generated as a transition from any state) runs on a tree owned by a
+    plain Module root; the others are closed with cleanup + destroy on module 1 itself (C++ cannot deliver module 1's own hooks
+    from ~Module(), DESIGN section 5 item 12) or, alternately, with a bare destroy of a wrapped tree."""
+    calls = list(calls)
+    if calls and calls[-1] == "destroy":
+        return calls, True
+    if i % 2:
+        return calls + ["destroy"], True
+    return calls + ["cleanup", "destroy"], False
 
 
 def prune_prefixes(behs):
@@ -129,7 +137,7 @@ def run(ctx):
         p = progs[0]
         calls = [e["op"] for e in lines if e["e"] == "call"]
         s = {"p": {k: p[k] for k in ("n", "parent", "req", "iok", "sok")}, "named": p.get("named", [1] * p["n"]),
-             "c": ["main"] if p.get("wrap") else calls}
+             "wrap": bool(p.get("wrap")), "c": ["main"] if p.get("mode") == "main" else calls}
         account_replays(ctx, pool(ctx, trace_jobs(ctx, script_jobs(ctx, [s], "replay"))))
         return
     quick = ctx.quick()
@@ -137,32 +145,44 @@ def run(ctx):
     # (no -coverage: TLC's coverage report is pathologically slow on the mutually recursive operators; the vacuity guards are
     #  the deviation configurations below, the Destroy witness and the per-action transition counts of the generator)
     mc = [lambda: ctx.tlc_mc(SPEC, "MC_ModuleTree.tla", "MC_quick.cfg" if quick else "MC_thorough.cfg", timeout=1500, coverage=False),
+          # hook results that change between life cycles (first call of a hook differs from the later ones)
+          lambda: ctx.tlc_mc(SPEC, "MC_ModuleTree.tla", "MC_vary.cfg" if quick else "MC_vary_thorough.cfg", timeout=1500, coverage=False),
           lambda: ctx.tlc_mc(SPEC, "MC_ModuleTree.tla", "MC_witness.cfg", expect="NeverDestroyed", coverage=False, workers=1)]
     for cfg, inv in NONVACUITY:                                 # as-found code + model mutants: each invariant can fail
         mc.append(lambda cfg=cfg, inv=inv: ctx.tlc_mc(SPEC, "MC_ModuleTree.tla", cfg, expect=inv, coverage=False, workers=1))
-    # 2. spec -> code.  Gen_cover with 1 worker: BFS order, hence the chosen path per state, is deterministic
+    # 2. spec -> code.  Cover generators with 1 worker: BFS order, hence the chosen path per state, is deterministic
+    t = "" if quick else "_thorough"
     gens = [lambda: ctx.tlc_gen(SPEC, "Gen_ModuleTree.tla", "Gen_cover.cfg", workers=1),
-            lambda: ctx.tlc_gen(SPEC, "Gen_ModuleTree.tla", "Gen_all.cfg" if quick else "Gen_all_thorough.cfg", timeout=1500, workers=2)]
+            lambda: ctx.tlc_gen(SPEC, "Gen_ModuleTree.tla", "Gen_cover_vary%s.cfg" % t, workers=1, timeout=1500),
+            lambda: ctx.tlc_gen(SPEC, "Gen_ModuleTree.tla", "Gen_all%s.cfg" % t, timeout=1500, workers=2),
+            lambda: ctx.tlc_gen(SPEC, "Gen_ModuleTree.tla", "Gen_all_vary%s.cfg" % t, timeout=1500, workers=2)]
     res = pool(ctx, mc + gens)
-    cover, allseq = res[-2], res[-1]
-    scripts = prune_prefixes(cover)
-    for op, act in (("initialize", "Initialize"), ("start", "Start"), ("stop", "Stop"), ("cleanup", "Cleanup")):
-        n = sum(1 for b in cover if b["c"][-1] == op)
+    cover, cover_v, allseq, allseq_v = res[-4:]
+    for op, act in (("initialize", "Initialize"), ("start", "Start"), ("stop", "Stop"), ("cleanup", "Cleanup"), ("destroy", "Destroy")):
+        n = sum(1 for b in cover + cover_v if b["c"][-1] == op)
         if n == 0:
             raise vlib.Infra("vacuity guard: action %s never taken by the generator" % act)
         ctx.actions[act] = [n, n]
-    ctx.notes.append("transition cover of the model (<= 4 modules): %d transitions -> %d call sequences after prefix pruning"
-                     % (len(cover), len(scripts)))
-    allseq.sort(key=lambda b: (json.dumps(b["p"], sort_keys=True), b["c"]))
-    ctx.notes.append("all call sequences of length 5 for programs with <= %d modules: %d" % (2 if quick else 3, len(allseq)))
+    pkey = lambda b: json.dumps(b["p"], sort_keys=True)
+    fixed = set(pkey(b) for b in cover)
+    cover_v = [b for b in cover_v if pkey(b) not in fixed]          # the fixed-result programs are already in the <= 4 cover
+    allseq_v = [b for b in allseq_v if pkey(b) not in fixed]
+    scripts = prune_prefixes(cover + cover_v)
+    ctx.notes.append("transition cover of the model incl. destroy from every state (<= 4 modules fixed results, <= %d modules results "
+                     "changing between life cycles): %d transitions -> %d call sequences after prefix pruning"
+                     % (2 if quick else 3, len(cover) + len(cover_v), len(scripts)))
+    allseq = allseq + allseq_v
+    allseq.sort(key=lambda b: (pkey(b), b["c"]))
+    ctx.notes.append("all call sequences of fixed length for the small programs: %d" % len(allseq))
     progs = {}
     for b in scripts + allseq:
-        progs.setdefault(json.dumps(b["p"], sort_keys=True), b["p"])
+        progs.setdefault(pkey(b), b["p"])
     execs = []
-    for b in scripts + allseq:
-        execs.append({"p": b["p"], "named": naming(rnd, b["p"]), "c": close(b["c"])})
+    for i, b in enumerate(scripts + allseq):
+        calls, wrap = close(b["c"], i)
+        execs.append({"p": b["p"], "named": naming(rnd, b["p"]), "wrap": wrap, "c": calls})
     for k in sorted(progs):                                     # Main()'s own sequencing, once per program
-        execs.append({"p": progs[k], "named": naming(rnd, progs[k]), "c": ["main"]})
+        execs.append({"p": progs[k], "named": naming(rnd, progs[k]), "wrap": True, "c": ["main"]})
     ctx.exhaustive = True
     ctx.sample({"kind": "model-generated execution replayed on real Module probes", "script": execs[len(execs) // 3]})
     gen_jobs = script_jobs(ctx, execs, "gen")
@@ -179,10 +199,12 @@ def run(ctx):
     first = vlib.read_lines(tr, 1, 7)
     ctx.sample({"kind": "recorded trace of a random tree (first lines)", "events": [json.loads(x) for x in first]})
     ctx.assumptions = [
-        "every call sequence ends with cleanup() on the root before the destruction (C++ cannot deliver the hooks of the object "
-        "being destroyed from ~Module()); the exception is the Main() sequence, transcribed from run_in_frontend.cpp/"
-        "run_in_backend.cpp as of this revision: initialize; if ok {start; if ok stop; cleanup}; destroy - on a plain Module('') root",
-        "hook outcomes are fixed per module for the whole execution; hooks do not throw and do not call back into the tree",
+        "module 1 itself is only destroyed after cleanup() (C++ cannot deliver the hooks of the object being destroyed from "
+        "~Module()); destruction in any other state (running, initialised, after a failed start ...) is exercised on a tree owned by "
+        "a plain Module('') root, as `apps` in Main(), whose ~Module() must stop and clean up everything below it",
+        "the Main() sequence is transcribed from run_in_frontend.cpp/run_in_backend.cpp as of this revision: initialize; if ok "
+        "{start; if ok stop; cleanup}; destroy - on a plain Module('') root",
+        "hook results are a function of (module, hook, number of the call); hooks do not throw and do not call back into the tree",
         "positive obligations (everything initialised/started when no required module fails effectively) are demanded of the first "
         "initialize()/start() round only; later rounds are checked for permission and balance",
         "a missing configuration key of a named module (initialize() fails before onInit) is not exercised",
